@@ -141,7 +141,7 @@ func VxC10Restore() {
 		vx.Assert("existing-output-refused-and-untouched", err != nil && bytes.Equal(vx.FSReadFile(out), []byte{9, 9, 9}))
 		return
 	}
-	vx.Assert("published-file-was-flushed-and-closed", vx.FSEvents("rename-of-") == 0)
+	vx.Assert("published-file-was-flushed-and-closed", vx.FSEvents("rename-of-unsynced-file") == 0)
 	if damaged {
 		vx.Assert("damaged-replica-is-an-error", err != nil)
 		vx.Assert("damaged-replica-leaves-no-output", !vx.FSExists(out))
